@@ -94,7 +94,11 @@ def extra_referrers(rng, g, k):
             t = rng.choice(anyt)
             cid = "cp%d" % i
             out.append((cid, '  <clipPath id="%s"><rect xy="#%s|h 1" wh="10"/></clipPath>' % (cid, t.id), [t.id], "clipPath"))
-            s = '<rect id="%s" x="%d" y="%d" width="100" height="100" clip-path="url(#%s)"/>' % (eid, rng.randint(-50, 0), rng.randint(-50, 0), cid)
+            if rng.random() < 0.5:
+                s = '<rect id="%s" x="%d" y="%d" width="100" height="100" clip-path="url(#%s)"/>' % (eid, rng.randint(-50, 0), rng.randint(-50, 0), cid)
+            else:
+                # a container is clipped the same way (its box comes from its content)
+                s = '<g id="%s" clip-path="url(#%s)"><rect x="%d" y="%d" width="100" height="100"/></g>' % (eid, cid, rng.randint(-50, 0), rng.randint(-50, 0))
             deps = [cid]
         elif kind == "expr":
             t = rng.choice(anyt)
@@ -272,7 +276,7 @@ def make_case(rng):
 def make_negative(rng):
     g = layout.LayoutGen(rng, exact=True, use_prev=False, shapes=["rect", "circle", "box"]).build(rng.choice([2, 3, 4]))
     items = [[e.id, e.render(), [], "layout"] for e in g.els]
-    k = rng.choice(["unknown-id", "cycle", "self", "no-bbox", "no-bbox-in-list"])
+    k = rng.choice(["unknown-id", "cycle", "self", "no-bbox", "no-bbox-in-list", "unknown-clip"])
     ref = rng.choice(["xy=\"#%s|h\" wh=\"2\"", "wh=\"#%s\"", "surround=\"#%s\"", "xy=\"{{#%s~x2}} 0\" wh=\"2\"", "cxy=\"#%s@c\" r=\"2\""])
     shape = "circle" if "r=" in ref else "rect"
     if k == "unknown-id":
@@ -282,6 +286,11 @@ def make_negative(rng):
         items.append(["z2", '  <%s id="z2" %s/>' % (shape, ref % "z1"), [], "neg"])
     elif k == "self":
         items.append(["z1", '  <%s id="z1" %s/>' % (shape, ref % "z1"), [], "neg"])
+    elif k == "unknown-clip":
+        # clip-path is a reference like any other: to a clipPath that does not exist it can never be satisfied
+        inner = '<rect wh="3"/>'
+        items.append(["z1", '  ' + rng.choice(['<g id="z1" clip-path="url(#nowhere)">%s</g>' % inner, '<rect id="z1" wh="4" clip-path="url(#nowhere)"/>',
+                                                  '<a id="z1" href="x" clip-path="url(#nowhere)">%s</a>' % inner]), [], "neg"])
     elif k == "no-bbox-in-list":
         # the boxless target is one of several listed elements: it must not be silently left out
         items.append(["z2", '  <%s id="z2"/>' % rng.choice(["rect", "circle", "g", "title"]), [], "neg"])
